@@ -163,7 +163,6 @@ Proof.
   destruct (all_some (map (edf_other_offsets D L) others2)) as [os|]; [|reflexivity].
   destruct (offsets_of_steps (tua_steps L)) as [ts|]; [|reflexivity].
   f_equal. apply map_ext. intros A. unfold edf_rta.
-  destruct (tua (A + 1) <? rem); [reflexivity|].
   rewrite (ded_search_ext dbg limit (edf_rhs ub1 rem tua D others1 A) (edf_rhs ub2 rem tua D others2 A)); [reflexivity|].
   intros AF. unfold edf_rhs. rewrite Hbl. f_equal. unfold edf_hep. apply sumN_map_equiv.
   apply Forall2_other_weaken with (1 := Heq). intros o1 o2 (Hr & _ & Hd). rewrite Hd. apply Hr.
@@ -745,7 +744,7 @@ Section NpEdfTask.
     assert (Hca : C <= C * arr (A + 1)).
     { pose proof (arr_mono 1 (A + 1) ltac:(lia)).
       pose proof (N.mul_le_mono_l 1 (arr (A + 1)) C ltac:(lia)). lia. }
-    unfold edf_rta. destruct (N.ltb_spec (C * arr (A + 1)) (C - 1)) as [|_]; [lia|].
+    unfold edf_rta.
     set (w := edf_rhs true (C - 1) (fun d => C * arr d) D others A).
     assert (Hw : forall AF, w AF = (C * arr (A + 1) - (C - 1)) + oth (N.min AF (A + 1))) by apply np_rhs_eq.
     assert (w_mono : forall a b, a <= b -> w a <= w b).
